@@ -36,41 +36,49 @@ def write_cfg(path, keys, strict):
         f.write("POSTCONDITION TraceAccepted\nCHECK_DEADLOCK FALSE\n")
 
 
-def judge_script(script, wd, name):
+def judge_scripts(scripts, wd, name):
+    """All scripts run in ONE process, in the given order (state shared between instances of the
+    same specialisation - a static, say - must not let one cache's capacity leak into another's
+    choice); every execution's log is judged separately."""
     binp = build("plain")
-    rc, outp, sp, tp = run_exec(binp, script, wd, name)
+    flat = [ln for s in scripts for ln in s]
+    rc, outp, sp, tp = run_exec(binp, flat, wd, name)
     if rc != 0:
-        return dict(infra="exec rc=%s %s" % (rc, outp[-500:]))
-    keys = int(script[0].split()[10])
-    r = tlc_trace(tp, [], keys, wd, name, module="RrStat", cfg_writer=write_cfg, timeout=1200, heap="4g")
-    m = _RE.search(re.sub(r"\s+", "", r["out"]))
-    if r.get("infra") or not m:
-        if r.get("depth") and not r["accepted"]:
-            return dict(rejected=True, line=r["depth"])
-        return dict(infra=r["out"][-1500:])
-    return dict(cap=int(m.group(1)), n=int(m.group(2)), ok=m.group(3) == "TRUE",
-                hits=[int(x) for x in m.group(4).split(",")][:int(m.group(1))], accepted=r["accepted"])
+        return [dict(infra="exec rc=%s %s" % (rc, outp[-500:]))]
+    with open(tp) as f:
+        traces = vlib.split_executions([x.rstrip("\n") for x in f if x.strip()])
+    out = []
+    for i, (script, tr) in enumerate(zip(scripts, traces)):
+        keys = int(script[0].split()[10])
+        p = os.path.join(wd, "%s_%d.ndjson" % (name, i))
+        with open(p, "w") as f:
+            f.write("\n".join(tr) + "\n")
+        r = tlc_trace(p, [], keys, wd, "%s_%d" % (name, i), module="RrStat", cfg_writer=write_cfg, timeout=1200, heap="4g")
+        m = _RE.search(re.sub(r"\s+", "", r["out"]))
+        if r.get("infra") or not m:
+            if r.get("depth") and not r["accepted"]:
+                out.append(dict(rejected=True, line=r["depth"]))
+            else:
+                out.append(dict(infra=r["out"][-1500:]))
+            continue
+        out.append(dict(cap=int(m.group(1)), n=int(m.group(2)), ok=m.group(3) == "TRUE",
+                        hits=[int(x) for x in m.group(4).split(",")][:int(m.group(1))], accepted=r["accepted"]))
+    return out
 
 
 def run(tier, wd, rng):
     nev = 4200 if tier == "quick" else 20000
-    scripts = [(c, gen_script(rng, c, nev)) for c in CAPS]
-    out = dict(runs=[], violations=[], infra=None)
-
-    def one(cs):
-        c, s = cs
-        return c, s, judge_script(s, wd, "rr%d" % c)
-
-    with ThreadPoolExecutor(max_workers=4) as ex:
-        for c, s, r in ex.map(one, scripts):
-            if r.get("infra"):
-                out["infra"] = r["infra"]
-                continue
-            if r.get("rejected"):
-                continue    # a structural rejection is reported by the ordinary slice run
-            out["runs"].append(dict(cap=c, evictions=r["n"], hits_by_insertion_rank=r["hits"], spread_ok=r["ok"]))
-            if r["n"] < 4000:
-                out["infra"] = "only %d evictions at capacity %d" % (r["n"], c)
-            elif not r["ok"]:
-                out["violations"].append((c, s, r))
+    scripts = [gen_script(rng, c, nev) for c in CAPS]
+    out = dict(runs=[], violations=[], infra=None, scripts=scripts)
+    for c, s, r in zip(CAPS, scripts, judge_scripts(scripts, wd, "rr")):
+        if r.get("infra"):
+            out["infra"] = r["infra"]
+            continue
+        if r.get("rejected"):
+            continue    # a structural rejection is reported by the ordinary slice run
+        out["runs"].append(dict(cap=c, evictions=r["n"], hits_by_insertion_rank=r["hits"], spread_ok=r["ok"]))
+        if r["n"] < 4000:
+            out["infra"] = "only %d evictions at capacity %d" % (r["n"], c)
+        elif not r["ok"]:
+            out["violations"].append((c, s, r))
     return out
